@@ -129,13 +129,26 @@ partial def bracketName (w : String) (toks : List Tok) : Option (String × List 
   | .us :: .int s :: r => bracketName (w ++ "_" ++ s) r
   | _ => none
 
-/-- the text behind the bracket that closes an array literal (entries are not interpreted) -/
-partial def skipArray (depth : Nat) (toks : List Tok) : Option (List Tok) :=
-  match toks with
-  | .rbrack :: r => if depth == 0 then some r else skipArray (depth - 1) r
-  | .lbrack :: r => skipArray (depth + 1) r
-  | .int _ :: r | .float _ :: r | .str _ :: r | .comma :: r | .nl :: r | .word "true" :: r | .word "false" :: r => skipArray depth r
-  | _ => none
+mutual
+/-- an array literal after its `[`: numbers, booleans, strings, arrays, separated by commas (entries are not
+interpreted); answers the text behind the closing bracket -/
+partial def skipArray (toks : List Tok) : Option (List Tok) :=
+  match skipNls toks with
+  | .rbrack :: r => some r
+  | r => skipItems r
+partial def skipItems (toks : List Tok) : Option (List Tok) := do
+  let r ←
+    match toks with
+    | .int _ :: r | .float _ :: r | .str _ :: r | .word "true" :: r | .word "false" :: r => some r
+    | .lbrack :: r => skipArray r
+    | _ => none
+  match r with
+  | .comma :: r' => skipItems (skipNls r')
+  | _ =>
+    match skipNls r with
+    | .rbrack :: r' => some r'
+    | _ => none
+end
 
 partial def tupleVars (toks : List Tok) (acc : List String) : Option (List String × List Tok) :=
   match toks with
@@ -233,7 +246,7 @@ partial def product (toks : List Tok) : Option (E × List Tok) :=
   match toks with
   | .str s :: r => some (strE s, r)
   | .lbrack :: r => do
-    let r' ← skipArray 0 r
+    let r' ← skipArray r
     pure (arrayE, r')
   | .word w :: .lbrack :: r => do
     let (idx, r') ← accesses (.lbrack :: r) []
